@@ -168,6 +168,11 @@ def handleC18 (op : String) (args : List Sexp) : Option Ans :=
     let s ← toJStr? s
     pure (if validObj s then
       .ok (ofOption (fun (p, i) => list [ofJStr p, ofJStr i]) (InnerNames.split s)) else .err "e")
+  | "inner-parts", [s] => do
+    -- `get_inner_class_parent` / `get_inner_class_name`: the two halves of `split` (`Thm.C18.inner_parts_are_split`)
+    let s ← toJStr? s
+    pure (if validObj s then
+      .ok (list [ofOption ofJStr (InnerNames.innerParent s), ofOption ofJStr (InnerNames.innerName s)]) else .err "e")
   | "join", [p, i] => do
     let p ← toJStr? p; let i ← toJStr? i
     pure (if validObj p && validObj i then .ok (ofJStr (InnerNames.join p i)) else .err "e")
